@@ -179,9 +179,19 @@ fn c03_case(ctx: &mut Ctx, rng: &mut Rng, i: u64) {
         stop_when_done: true,
         kill_after: false,
         eintr_permille: if eintr { 40 } else { 0 },
+        route: comm::Route::default(),
     };
+    let mut cfg = cfg;
+    cfg.route.via_clone = rng.chance(200);
+    cfg.route.time_first = rng.chance(500);
+    // one chain in six reads through read_string(): each piece is then the lossy decoding of the bytes of that read
+    cfg.route.text_chain = cfg.entry == Entry::Start && rng.chance(170);
     let x = comm::exchange(ctx, &cfg);
     let fam = if tiny { "tiny-limits" } else if constant { "constant-limit" } else { "changing-limits" };
+    if cfg.route.text_chain {
+        c03_text_judge(ctx, &cfg, fam, &x, with_time, eintr);
+        return;
+    }
     let w = |extra: J| describe(&cfg, fam).set("reads", reads_json(&x)).set("child_report", J::arr_s(&x.report)).set("detail", extra);
     ctx.count("read_chains", 1);
     ctx.count("reads_performed", x.reads.len() as i64);
@@ -243,6 +253,82 @@ fn c03_case(ctx: &mut Ctx, rng: &mut Rng, i: u64) {
     reassembly(ctx, "C03", &cfg, fam, &x, complete);
 }
 
+/// read_string() chains: what each call took out of the two pipes is known from the interposed log (the read() calls
+/// it made and their results); the strings it returned must be the lossy decoding of exactly those bytes - nothing held
+/// back for later, nothing carried over - and those bytes are bounded by the limit.
+fn c03_text_judge(ctx: &mut Ctx, cfg: &Xcfg, fam: &str, x: &Xres, with_time: bool, eintr: bool) {
+    let w = |extra: J| describe(cfg, fam).set("reads", reads_json(x)).set("child_report", J::arr_s(&x.report)).set("detail", extra);
+    ctx.count("read_chains", 1);
+    ctx.count("read_string_chains", 1);
+    if x.cert.is_some() || x.hard_timeout || x.launch_error.is_some() || x.overflow {
+        return;
+    }
+    if let Some(p) = &x.panic {
+        ctx.violation("C03/panic", "a limited read_string panicked", w(J::s(p)));
+        return;
+    }
+    let (mut off1, mut off2) = (0usize, 0usize);
+    let mut complete = false;
+    for (j, r) in x.reads.iter().enumerate() {
+        let n = r.limit.size.unwrap_or(usize::MAX);
+        let evs = &x.events[r.ev_start.min(x.events.len())..r.ev_end.min(x.events.len())];
+        let taken = |fd: i32| -> usize { evs.iter().filter(|e| e.child == 0 && e.kind == k::READ && e.a[0] == fd as i64 && e.ret > 0).map(|e| e.ret as usize).sum() };
+        let (l1, l2) = (if x.fds.1 >= 0 { taken(x.fds.1) } else { 0 }, if x.fds.2 >= 0 { taken(x.fds.2) } else { 0 });
+        ctx.count("reads_performed", 1);
+        if l1 + l2 > n {
+            ctx.violation(&format!("C03/limit-exceeded/{}", fam), &format!("read_string #{} took {}+{} bytes out of the pipes with a limit of {}", j, l1, l2, n), w(J::Null));
+            return;
+        }
+        let e1 = pat_vec(cfg.seed, 1, off1 as u64, l1);
+        let e2 = pat_vec(cfg.seed, 2, off2 as u64, l2);
+        off1 += l1;
+        off2 += l2;
+        if !r.ok {
+            let ok_err = (r.err_kind == Some(ErrorKind::TimedOut) && with_time) || (r.err_kind == Some(ErrorKind::Interrupted) && eintr);
+            if !ok_err {
+                ctx.violation(&format!("C03/error/{:?}", r.err_kind), &format!("read_string #{} failed: {:?}", j, r.err_kind), w(J::Null));
+                return;
+            }
+            // the error carries the bytes captured during the call
+            let (g1, g2) = (r.out.clone().unwrap_or_default(), r.err.clone().unwrap_or_default());
+            if g1 != e1 || g2 != e2 {
+                ctx.violation("C03/text/capture-of-error", "the data carried by the error is not what the call took out of the pipes", w(J::Null));
+                return;
+            }
+            continue;
+        }
+        let (g1, g2) = (r.out_str.clone().unwrap_or_default(), r.err_str.clone().unwrap_or_default());
+        ctx.count("text_pieces_compared", 1);
+        if g1 != String::from_utf8_lossy(&e1) || (cfg.err_piped && g2 != String::from_utf8_lossy(&e2)) {
+            let held_back = g1.len() < String::from_utf8_lossy(&e1).len() || g2.len() < String::from_utf8_lossy(&e2).len();
+            ctx.violation(
+                &format!("C03/text/{}", if held_back { "bytes-held-back" } else { "piece-differs" }),
+                &format!("read_string #{} took {}+{} bytes out of the pipes but the strings it returned are not the lossy decoding of those bytes", j, l1, l2),
+                w(J::obj().set("stdout_returned", J::s(&g1.chars().take(40).collect::<String>())).set("stdout_expected", J::s(&String::from_utf8_lossy(&e1).chars().take(40).collect::<String>()))),
+            );
+            return;
+        }
+        if g1.is_empty() && g2.is_empty() {
+            // all-empty success: must be real end-of-file everywhere
+            complete = true;
+            let wrote = (x.child_wrote(1) as usize, x.child_wrote(2) as usize);
+            if off1 < wrote.0 || (cfg.err_piped && off2 < wrote.1) || !x.child_done() {
+                ctx.violation(&format!("C03/empty-before-eof/{}", fam), &format!("read_string returned all-empty strings after {}+{} of {}+{} bytes", off1, off2, wrote.0, wrote.1), w(J::Null));
+                return;
+            }
+        }
+    }
+    if complete {
+        ctx.count("chains_run_to_eof", 1);
+        let wrote = (x.child_wrote(1) as usize, x.child_wrote(2) as usize);
+        if off1 != wrote.0 || (cfg.err_piped && off2 != wrote.1) {
+            ctx.violation("C03/reassembly/text/lost", &format!("the read_string chain consumed {}+{} bytes, the child wrote {}+{}", off1, off2, wrote.0, wrote.1), w(J::Null));
+        } else {
+            ctx.count("stdout_bytes_reassembled", off1 as i64);
+        }
+    }
+}
+
 // ---------------------------------------------------------------- C04
 
 const MS: u128 = 1_000_000;
@@ -266,7 +352,7 @@ fn t_classes() -> Vec<(&'static str, Duration)> {
 fn c04_case(ctx: &mut Ctx, rng: &mut Rng, i: u64) {
     let seed = rng.next() >> 1;
     let tcs = t_classes();
-    let kinds = ["silent", "trickle", "burst-then-silent", "flood", "closes-stdin-pipe-full", "closes-stdin-pipe-not-full", "exits-mid-exchange", "no-limit-control", "slow-reader-of-large-input"];
+    let kinds = ["silent", "trickle", "burst-then-silent", "flood", "closes-stdin-pipe-full", "closes-stdin-pipe-not-full", "exits-mid-exchange", "no-limit-control", "slow-reader-of-large-input", "nibbles-input-then-pauses"];
     let kind = kinds[(i % kinds.len() as u64) as usize];
     let (tname, t) = tcs[rng.below(tcs.len() as u64) as usize].clone();
     let cap: i64 = 65536;
@@ -318,6 +404,12 @@ fn c04_case(ctx: &mut Ctx, rng: &mut Rng, i: u64) {
             input = Some(comm::input_for(seed, rng.range(cap as u64 * 2, cap as u64 * 6) as usize));
             format!("s{},r{},s{},R,w1:{}:4096,x0", rng.range(8, 25), rng.range(1, 70000), rng.range(0, 15), rng.range(0, 20000))
         }
+        "nibbles-input-then-pauses" => {
+            // the stdin pipe is full; the child takes one small piece (one slot of the pipe becomes free: the pipe is
+            // "writable" again, but not for much) and then does nothing for a long while
+            input = Some(comm::input_for(seed, rng.range(cap as u64 * 2, cap as u64 * 3) as usize));
+            format!("s{},r{},s{},R,w1:{}:4096,x0", rng.range(10, 30), *rng.pick(&[4096u64, 4096, 8192, 1, 5000]), rng.range(300, 500), rng.range(0, 5000))
+        }
         "exits-mid-exchange" => {
             input = if rng.chance(500) { Some(comm::input_for(seed, rng.range(1, 300_000) as usize)) } else { None };
             format!("w1:{}:4096,s{},x{}", rng.range(0, 100_000), rng.range(0, 10), rng.below(3))
@@ -329,7 +421,9 @@ fn c04_case(ctx: &mut Ctx, rng: &mut Rng, i: u64) {
         }
     };
     // chain: up to 8 resumed reads mixing time and size limits, then generous reads until end-of-file
-    let mut chain = vec![Limit { size: None, time: first_time }];
+    // (the first read may carry a size limit too: both limits are in force together, whichever order they were set in)
+    let first_size = if first_time.is_some() && rng.chance(300) { Some(*rng.pick(&[1usize << 22, 100_000, 4096])) } else { None };
+    let mut chain = vec![Limit { size: first_size, time: first_time }];
     if first_time.is_some() {
         for _ in 0..rng.range(0, 7) {
             let (_, t2) = tcs[rng.below(6) as usize].clone();
@@ -361,7 +455,11 @@ fn c04_case(ctx: &mut Ctx, rng: &mut Rng, i: u64) {
         stop_when_done: true,
         kill_after,
         eintr_permille: if eintr { 60 } else { 0 },
+        route: comm::Route::default(),
     };
+    let mut cfg = cfg;
+    cfg.route.time_first = rng.chance(500);
+    cfg.route.via_clone = rng.chance(150);
     let x = comm::exchange(ctx, &cfg);
     let w = |extra: J| describe(&cfg, kind).set("reads", reads_json(&x)).set("child_report", J::arr_s(&x.report)).set("events_tail", J::arr_s(&ilog::fmt_tail(&x.events, 14))).set("detail", extra);
     ctx.count("read_chains", 1);
@@ -437,6 +535,22 @@ fn c04_case(ctx: &mut Ctx, rng: &mut Rng, i: u64) {
                 ctx.count("interrupted_reads_resumed", 1);
             } else {
                 ctx.violation(&format!("C04/error/{:?}", r.err_kind), &format!("read #{} failed with {:?}/{:?}", j, r.err_kind, r.errno), w(J::Null));
+                return;
+            }
+        }
+        if let (Some(t), true) = (r.limit.time, r.ok || r.err_kind != Some(ErrorKind::TimedOut)) {
+            // whatever the call returned, it returned no later than the limit plus one bounded I/O step (time the
+            // parent spent asleep in a blocking call is on the virtual clock: it is charged what it really took)
+            ctx.count("returns_checked_against_the_limit", 1);
+            let tn = t.as_nanos();
+            let nev = (r.ev_end - r.ev_start) as u128;
+            let bound = tn + 4 * op_cost.max(0) as u128 + nev * 4_000 + 3 * MS;
+            if elapsed > bound {
+                ctx.violation(
+                    &format!("C04/late-return/{}", kind),
+                    &format!("read #{} with a limit of {} ns returned ({}) only after {} ns of virtual time, {} ns of which the parent spent asleep in blocking calls over the whole exchange", j, tn, if r.ok { "Ok".to_string() } else { format!("{:?}", r.err_kind) }, elapsed, crate::vclock::BLOCKED_NS.load(std::sync::atomic::Ordering::SeqCst)),
+                    w(J::Null),
+                );
                 return;
             }
         }
